@@ -8,6 +8,7 @@
    edges regenerate Conc/Gen/LockGen.v and LockGen_acyclic below is re-checked. *)
 From Coq Require Import List Arith Bool String Relations Reals.
 From MPSV Require Import Conc.JobQueue Conc.WorkerModel Conc.WorkerProps Conc.LockOrder Conc.Gen.LockGen.
+From MPSV Require Import Conc.WorkerRefined Conc.WorkerRefinedProps.
 Import ListNotations.
 Local Close Scope R_scope.
 Local Open Scope nat_scope.
@@ -129,3 +130,151 @@ Print Assumptions C05_lock_order_exists.
 Example C05_lock_order_cycle_detected :
   acyclic (("aberth", "root")%string :: lock_edges) = false \/ ~ In ("root", "aberth")%string lock_edges.
 Proof. vm_compute. left. reflexivity. Qed.
+
+(* ================================================================================================== *)
+(* REFINED MODEL (Conc/WorkerRefined.v): the six worker bodies -- mps_thread_{f,d,m}polzer_worker,
+   __mps_secular_ga_{f,d,m}iterate_worker with mps_*aberth_wl inlined -- transcribed instruction by instruction
+   (one instruction = one pthread call or one shared access) and run by ONE step function `rstep`.
+   `rreach v k maxit cl req pool1 s`: s is reached from an initial state by some interleaving of single
+   instructions of the k tasks of variant v (any initial again flags / nzeros / excep, any outcome of the
+   data-dependent tests and of Newton).  The theorems hold for every program whose static lock-set annotation
+   passes check_prog; C05_refined_programs_checked says the six transcribed texts pass it. *)
+Definition rreach (v : variant) (k maxit : nat) (cl : list (list nat)) (req : nat) (pool1 : bool) (s : rstate) : Prop :=
+  exists again0 nz0 ex0 tr, rrun (mk_params v k maxit cl req pool1) (r_init (mk_params v k maxit cl req pool1) again0 nz0 ex0) tr = Some s.
+(* task t owns root i: its program point has roots_mutex[i] in the (static) lock set *)
+Definition rowns (v : variant) (s : rstate) (t i : nat) : Prop := owns_root (ann_of v) (r_th s t) i = true.
+
+Theorem C05_refined_programs_checked : forall v, check_prog (prog_of v) (ann_of v) = true.
+Proof. exact all_progs_ok. Qed.
+Print Assumptions C05_refined_programs_checked.
+
+(* per-root exclusive ownership, for every interleaving of single instructions *)
+Theorem C05_refined_ownership_exclusive : forall v k maxit cl req pool1 s,
+  rreach v k maxit cl req pool1 s -> forall i t1 t2, rowns v s t1 i -> rowns v s t2 i -> t1 = t2.
+Proof.
+  intros v k maxit cl req pool1 s Hr i t1 t2 H1 H2.
+  eapply (refined_ownership_exclusive (mk_params v k maxit cl req pool1) (ann_of v) (all_progs_ok v) s Hr i);
+    apply owns_iff_exec; assumption.
+Qed.
+Print Assumptions C05_refined_ownership_exclusive.
+
+(* the owner holds roots_mutex[i] whenever the pool has several threads (with one thread the d/m bodies skip the
+   call and the tasks run one after the other), and whoever holds roots_mutex[i] is the owner *)
+Theorem C05_refined_owner_holds_roots_mutex : forall v k maxit cl req pool1 s,
+  rreach v k maxit cl req pool1 s -> forall t i,
+  (rowns v s t i -> pool1 = false -> r_own s (LR i) = Some t) /\ (r_own s (LR i) = Some t -> rowns v s t i).
+Proof.
+  intros v k maxit cl req pool1 s Hr t i.
+  destruct (refined_owner_holds_mutex (mk_params v k maxit cl req pool1) (ann_of v) (all_progs_ok v) s Hr t i) as [A B].
+  split.
+  - intros Ho Hp. apply A; [apply owns_iff_exec; exact Ho|left; exact Hp].
+  - intro Ho. apply (owns_iff_exec (ann_of v)). apply B. exact Ho.
+Qed.
+Print Assumptions C05_refined_owner_holds_roots_mutex.
+
+(* only the owner writes the root: a step that changes (again, value, aux value, radius) of root i is a step of
+   the task that owns root i before and after it *)
+Theorem C05_refined_only_owner_writes : forall v k maxit cl req pool1 s t ch s',
+  rreach v k maxit cl req pool1 s -> rstep (mk_params v k maxit cl req pool1) s t ch = Some s' ->
+  forall i, root_view s' i <> root_view s i -> rowns v s t i /\ rowns v s' t i.
+Proof.
+  intros v k maxit cl req pool1 s t ch s' Hr Hs i Hv.
+  destruct (refined_only_owner_writes (mk_params v k maxit cl req pool1) (ann_of v) (all_progs_ok v) s t ch s' Hr Hs i Hv) as [A B].
+  split; apply owns_iff_exec; assumption.
+Qed.
+Print Assumptions C05_refined_only_owner_writes.
+
+(* the value other workers read is written with aberth_mutex[i] (and roots_mutex[i]) held, in the bodies f, m,
+   secular f, secular m ... *)
+Theorem C05_refined_value_write_under_aberth_mutex : forall v k maxit cl req s t ch s',
+  In v [VF; VM; VSF; VSM] ->
+  rreach v k maxit cl req false s -> rstep (mk_params v k maxit cl req false) s t ch = Some s' ->
+  forall i, r_valv s' i <> r_valv s i -> r_own s (LA i) = Some t /\ r_own s (LR i) = Some t.
+Proof.
+  intros v k maxit cl req s t ch s' Hv Hr Hs i Hne.
+  apply (refined_value_write_under_aberth (mk_params v k maxit cl req false) (ann_of v) (all_progs_ok v) s t ch s'); try assumption; try reflexivity.
+  simpl in Hv. destruct Hv as [<-|[<-|[<-|[<-|[]]]]]; vm_compute; reflexivity.
+Qed.
+Print Assumptions C05_refined_value_write_under_aberth_mutex.
+
+(* ... and NOT in the DPE bodies: mps_thread_dpolzer_worker and __mps_secular_ga_diterate_worker write
+   s->root[i]->dvalue without aberth_mutex[i] (and mps_faberth / mps_daberth read the other roots without it).
+   Witness: task 0 alone runs n instructions and then performs a value write while aberth_mutex[0] is free.
+   This is a statement about the lock discipline of the text, not a violation of the property: the inclusion
+   invariant absorbs any value read (C05_workers_inclusion_invariant).  The trace validation confirms it on
+   every d-phase run (value hash changes between lock and unlock of roots_mutex[i] with no Aberth lock). *)
+Definition value_write_unlocked_after (v : variant) (n : nat) : Prop :=
+  let p := mk_params v 2 3 [[0; 1]] 2 false in
+  match rrun p (r_init p (fun _ => true) 0 false) (repeat (0, false) n) with
+  | Some s => match rstep p s 0 false with
+              | Some s' => r_valv s' 0 <> r_valv s 0 /\ r_own s (LA 0) = None /\ r_own s (LR 0) = Some 0
+              | None => False
+              end
+  | None => False
+  end.
+Theorem C05_refined_dpe_value_write_without_aberth_mutex :
+  value_write_unlocked_after VD 29 /\ value_write_unlocked_after VSD 33.
+Proof. split; vm_compute; (split; [discriminate|split; reflexivity]). Qed.
+Print Assumptions C05_refined_dpe_value_write_without_aberth_mutex.
+
+(* lock requests strictly increase in the class order  roots_mutex < global_aberth_mutex < {aberth_mutex, gs_mutex,
+   queue mutex}: whatever a task holds when it calls pthread_mutex_lock has a smaller rank than what it asks for *)
+Theorem C05_refined_lock_requests_increase : forall v k maxit cl req pool1 s,
+  rreach v k maxit cl req pool1 s -> forall t l h,
+  requests (mk_params v k maxit cl req pool1) s t l -> r_own s h = Some t -> lk_rank h < lk_rank l.
+Proof.
+  intros v k maxit cl req pool1 s Hr.
+  exact (refined_requests_increase (mk_params v k maxit cl req pool1) (ann_of v) (all_progs_ok v) s Hr).
+Qed.
+Print Assumptions C05_refined_lock_requests_increase.
+
+(* hence (composition with LockOrder: ordered => path_increases) no reachable state has a cycle in the wait-for
+   graph  t -> t' iff t stands at a real lock call for a mutex owned by t' *)
+Theorem C05_refined_no_wait_cycle : forall v k maxit cl req pool1 s,
+  rreach v k maxit cl req pool1 s ->
+  forall t, ~ clos_trans _ (waits_for lk (lview (mk_params v k maxit cl req pool1) s)) t t.
+Proof.
+  intros v k maxit cl req pool1 s Hr.
+  exact (refined_no_wait_cycle (mk_params v k maxit cl req pool1) (ann_of v) (all_progs_ok v) s Hr).
+Qed.
+Print Assumptions C05_refined_no_wait_cycle.
+
+(* progress (no deadlock, no stuck state): while some task has not returned, some task can execute its next
+   instruction -- for every interleaving, every thread count, every outcome of the data-dependent tests *)
+Theorem C05_refined_progress : forall v k maxit cl req pool1 s,
+  rreach v k maxit cl req pool1 s ->
+  (exists t, t < k /\ t_st (r_th s t) <> TDone) ->
+  exists t ch s', rstep (mk_params v k maxit cl req pool1) s t ch = Some s'.
+Proof.
+  intros v k maxit cl req pool1 s Hr Hex.
+  exact (refined_progress (mk_params v k maxit cl req pool1) (ann_of v) (all_progs_ok v) s Hr Hex).
+Qed.
+Print Assumptions C05_refined_progress.
+
+(* when the pool drains (all k tasks have returned) every mutex of the packet is free, so the pthread_mutex_destroy
+   calls of mps_thread_*polzer / mps_secular_ga_*iterate destroy unlocked mutexes; and a mutex is only ever owned
+   by a task that is running *)
+Theorem C05_refined_drain_all_mutexes_free : forall v k maxit cl req pool1 s,
+  rreach v k maxit cl req pool1 s ->
+  (forall l t, r_own s l = Some t -> exists pc, t_st (r_th s t) = TRun pc) /\
+  ((forall t, t < k -> t_st (r_th s t) = TDone) -> forall l, r_own s l = None).
+Proof.
+  intros v k maxit cl req pool1 s Hr. split.
+  - intros l t. exact (refined_idle_done_hold_nothing (mk_params v k maxit cl req pool1) (ann_of v) (all_progs_ok v) s Hr t l).
+  - exact (refined_drain_all_free (mk_params v k maxit cl req pool1) (ann_of v) (all_progs_ok v) s Hr).
+Qed.
+Print Assumptions C05_refined_drain_all_mutexes_free.
+
+(* non-vacuity: two tasks of the m body (all locks, global Aberth mutex): each fetches a job, then they alternate
+   instruction by instruction; both are inside their critical sections (task 0 owns root 0, task 1 owns root 1)
+   and both stand at the lock call for the global Aberth mutex *)
+Definition ex_alt (n : nat) : list (nat * bool) :=
+  repeat (0, false) 6 ++ repeat (1, false) 6 ++ flat_map (fun _ => [(0, false); (1, false)]) (seq 0 n).
+Example C05_refined_example :
+  match rrun (mk_params VM 2 3 [[0; 1]] 2 false) (r_init (mk_params VM 2 3 [[0; 1]] 2 false) (fun _ => true) 0 false) (ex_alt 13) with
+  | Some s => owners (ann_of VM) s 2 0 = 1 /\ owners (ann_of VM) s 2 1 = 1 /\ r_own s (LR 0) = Some 0 /\ r_own s (LR 1) = Some 1 /\
+              instr_at (mk_params VM 2 3 [[0; 1]] 2 false) s 0 = Some (ILock true MG) /\
+              instr_at (mk_params VM 2 3 [[0; 1]] 2 false) s 1 = Some (ILock true MG)
+  | None => False
+  end.
+Proof. vm_compute. repeat split. Qed.
